@@ -216,6 +216,7 @@ type c16GenOpt struct {
 var c16Scalars = []string{"int", "bool", "short", "byte", "long", "float", "double", "string"}
 
 type c16Gen struct {
+	mod     string // the module's own name: its types may be written Mod::Name
 	dep     *c16Module
 	rng     *rand.Rand
 	opt     c16GenOpt
@@ -272,11 +273,15 @@ func (g *c16Gen) ty(depth int, self string) *c16Ty {
 				return &c16Ty{K: "name", Name: g.dep.Name + "::" + names[g.rng.Intn(len(names))]}
 			}
 		}
+		own := ""
+		if g.mod != "" && g.rng.Intn(5) == 0 { // the module's own types may be qualified
+			own = g.mod + "::"
+		}
 		if len(g.enums) > 0 && g.rng.Intn(5) == 0 {
-			return &c16Ty{K: "name", Name: g.enums[g.rng.Intn(len(g.enums))].Name}
+			return &c16Ty{K: "name", Name: own + g.enums[g.rng.Intn(len(g.enums))].Name}
 		}
 		if len(g.structs) > 0 && g.rng.Intn(4) == 0 {
-			return &c16Ty{K: "name", Name: g.structs[g.rng.Intn(len(g.structs))]}
+			return &c16Ty{K: "name", Name: own + g.structs[g.rng.Intn(len(g.structs))]}
 		}
 		return g.scalar()
 	case r < 7:
@@ -420,7 +425,7 @@ func c16GenModule(rng *rand.Rand, name string, opt c16GenOpt, withIface bool) *c
 
 // c16GenModuleDep: a module that may use the structs and enums of dep, included as "<dep.Name>.tars"
 func c16GenModuleDep(rng *rand.Rand, name string, opt c16GenOpt, withIface bool, dep *c16Module) *c16Module {
-	g := &c16Gen{rng: rng, opt: opt, dep: dep, n: opt.IdBase}
+	g := &c16Gen{rng: rng, opt: opt, dep: dep, n: opt.IdBase, mod: name}
 	m := &c16Module{Name: name, Dep: dep}
 	nd := 3 + rng.Intn(5)
 	if opt.Small {
@@ -513,6 +518,9 @@ var c16Corners = []string{
 	"module m { struct S { 0 require int a ; } ; } ;", "module m { struct S { 0 require int a; 0 require int b; }; };", "module m { struct S { 4294967296 require int a; 0 require int b; }; };",
 	"module m { struct S { 2 require int a; 1 require int b; 0 optional int c; }; };", "module m { struct S { -1 require int a; 300 optional int b; }; };",
 	"module m { struct S { 0 require T a; }; };", "module m { struct S { 0 require m::S a; 1 require x::S b; }; };", "module m { struct S { 0 require vector<S> a; 1 optional map<int, vector<S>> b; }; };",
+	"module m { enum E { A }; struct T { 0 require int x; }; struct S { 0 require map<string, E> a; 1 require map<E, T> b; 2 optional vector<map<int, vector<E>>> c; 3 optional map<string, map<string, T>> d; 4 optional m::E q = A; 5 optional vector<m::T> r; }; interface I { map<string,E> f(map<int,T> a, out map<E,m::E> b); }; };",
+	"module m { enum E { A }; struct S { 0 require map<string, Nope> a; }; };", "module m { enum E { A }; struct S { 0 require map<Nope, E> a; }; };", "module m { struct S { 0 require vector<vector<Nope>> a; }; };",
+	"module m { enum E { A }; interface I { void f(map<int, Nope> a); }; };", "module m { enum E { A }; interface I { map<E, Nope> f(); }; };",
 	"module m { struct S { 0 require int a[3]; 1 optional T b[2]; 2 require byte c[0]; 3 require string d[-1]; }; };",
 	"module m { struct S { 0 require unsigned unsigned int a; 1 require unsigned long b; }; };", "module m { struct S { 0 require unsigned vector<int> a; }; };",
 	"module m { struct S { 0 require array a; }; };", "module m { struct S { 0 require vector<int a; }; };", "module m { struct S { 0 require map<int> a; }; };",
@@ -593,4 +601,91 @@ func c16SameKind(t string, rng *rand.Rand) string {
 		return []string{"St1", "St2", "En1", "En2", "m0", "m1", "Mod0::St1", "X::St1", "zz", "En1_K0", "EN1_K0", "EN2_K1"}[rng.Intn(12)]
 	}
 	return t
+}
+
+// ---------- several files: programs that include others (compared with Idl/Include.v parse_fs) ----------
+func c16FileCase(kind, main string, files map[string]string) c16Case {
+	c := c16Case{Kind: kind, Input: B(main), Files: map[string]B{}}
+	for n, t := range files {
+		c.Files[n] = B(t)
+	}
+	return c
+}
+
+func c16GenFileCases(tier string, rng *rand.Rand) []c16Case {
+	var cs []c16Case
+	// the hand-written scenarios whose files sit beside in.tars
+	for _, sc := range c16ScenarioList {
+		ok := len(sc.Includes) == 0
+		for n := range sc.Files {
+			if strings.Contains(n, "/") {
+				ok = false
+			}
+		}
+		if ok {
+			cs = append(cs, c16FileCase("inc-scenario", sc.Main, sc.Files))
+		}
+	}
+	fixed := []struct {
+		main  string
+		files map[string]string
+	}{
+		{`#include "d.tars" module M { struct S { 0 require T t; }; };`, map[string]string{"d.tars": `module M { struct T { 0 require int x; }; };`}},                                     // same module name in both files: unqualified name resolves there
+		{`#include "d.tars" module M { struct S { 0 require M::T t; 1 optional E e = B; 2 optional M::E f = M::A; }; };`, map[string]string{"d.tars": `module M { enum E { A, B }; struct T { 0 require int x; }; };`}},
+		{`#include "d.tars" module M { struct S { 0 require T t; }; };`, map[string]string{"d.tars": `module D { struct T { 0 require int x; }; };`}},                                     // unqualified name of another module: undefined
+		{`#include "d.tars" module M { enum E { A }; struct S { 0 optional E e = A; 1 optional D::F f = A; }; };`, map[string]string{"d.tars": `module D { enum F { A, X }; };`}},       // own enum member wins
+		{`#include "d.tars" module M { struct S { 0 optional D::F f = X; 1 optional D::F g = D::X; }; };`, map[string]string{"d.tars": `module D { enum F { A, X }; };`}},
+		{`#include "d.tars" module M { struct S { 0 optional D::F f = X; }; };`, map[string]string{"d.tars": `module D { enum F { X }; enum G { X }; };`}},                                // conflict inside the included module
+		{`#include "d.tars" #include "e.tars" module M { struct S { 0 optional D::F f = X; 1 require E::T t; }; };`, map[string]string{"d.tars": `module D { enum F { X }; };`, "e.tars": `module E { enum G { X }; struct T { 0 require int x; }; };`}}, // first included file wins
+		{`#include "d.tars" #include "d.tars" module M { struct S { 0 require D::T t; }; };`, map[string]string{"d.tars": `module D { struct T { 0 require int x; }; };`}},               // the same file twice
+		{`#include "d.tars" module M { struct S { 0 require E::T t; 1 require vector<map<string, E::T>> v; 2 optional E::T a[2]; }; interface I { E::T f(D::U u, out map<int, E::T> m); }; };`,
+			map[string]string{"d.tars": `#include "e.tars" module D { struct U { 0 require E::T t; }; };`, "e.tars": `module E { struct T { 0 require int x; }; };`}},                   // through two levels
+		{`#include "d.tars" module M { struct S { 0 require D::U u; }; };`, map[string]string{"d.tars": `#include "e.tars" module D { struct U { 0 require E::Nope t; }; };`, "e.tars": `module E { };`}}, // error inside an included file
+		{`#include "d.tars" module M { };`, map[string]string{"d.tars": `module D { struct U { 0 require int a } };`}},                                                                // syntax error inside an included file
+		{`#include "d.tars" module M { };`, map[string]string{"d.tars": `#include "e.tars" module D { };`, "e.tars": `#include "f.tars" module E { };`, "f.tars": `#include "d.tars" module F { };`}}, // cycle not through the main file
+		{`#include "d.tars" module M { };`, map[string]string{"d.tars": `#include "e.tars" module D { };`, "e.tars": `#include "f.tars" module E { };`, "f.tars": `#include "g.tars" module F { };`, "g.tars": `module G { };`}},
+		{`#include "d.tars" module M { };`, map[string]string{"d.tars": `module D { }; module D2 { };`}},                                                                              // several modules in an included file
+		{`#include "d.tars" module M { struct S { 0 require D::T t; }; };`, map[string]string{"d.tars": ``}},                                                                         // empty included file
+		{`#include "d.tars"`, map[string]string{"d.tars": `module D { struct T { 0 require int x; }; };`}},                                                                          // no module in the main file
+		{`#include "d.tars" module M { struct S { 0 require D::T t; }; };`, map[string]string{"d.tars": "module D { struct T { 0 require int x; }; }; \x00 garbage"}},
+		{`#include "d.tars" module M { struct S { 0 require D::e x; 1 optional D::e y = k; }; };`, map[string]string{"d.tars": `module D { enum e { k }; };`}},
+	}
+	for _, f := range fixed {
+		cs = append(cs, c16FileCase("inc-corner", f.main, f.files))
+	}
+	n := 6
+	if tier == "thorough" {
+		n = 80
+	}
+	for p := 0; p < n; p++ {
+		dep := c16GenModule(rng, fmt.Sprintf("Dep%d", p), c16GenOpt{Small: true}, false)
+		use := c16GenModuleDep(rng, fmt.Sprintf("Use%d", p), c16GenOpt{Small: p%2 == 0, IdBase: 100}, true, dep)
+		depText, useText := c16Join(dep.toks(), rng, p%2), c16Join(use.toks(), rng, (p+1)%2)
+		files := map[string]string{dep.Name + ".tars": depText}
+		cs = append(cs, c16FileCase("inc-valid", useText, files))
+		cs = append(cs, c16FileCase("inc-missing", useText, map[string]string{}))
+		dt := dep.toks()
+		cs = append(cs, c16FileCase("inc-dep-mutated", useText, map[string]string{dep.Name + ".tars": c16Join(c16Mutate(dt, rng, 1+rng.Intn(2)), rng, 0)}))
+		cs = append(cs, c16FileCase("inc-dep-truncated", useText, map[string]string{dep.Name + ".tars": c16Join(dt[:rng.Intn(len(dt)+1)], rng, 0)}))
+		cs = append(cs, c16FileCase("inc-circular", useText, map[string]string{dep.Name + ".tars": `#include "in.tars" ` + depText}))
+		cs = append(cs, c16FileCase("inc-use-mutated", c16Join(c16Mutate(use.toks(), rng, 1+rng.Intn(2)), rng, 0), files))
+		// a third file between the two
+		mid := fmt.Sprintf("#include \"%s.tars\" module Mid%d { struct Box { 0 require %s::%s inner; }; };", dep.Name, p, dep.Name, c16FirstType(dep))
+		if c16FirstType(dep) != "" {
+			cs = append(cs, c16FileCase("inc-chain", strings.Replace(useText, `"`+dep.Name+`.tars"`, `"mid.tars"`, 1), map[string]string{"mid.tars": mid, dep.Name + ".tars": depText}))
+		}
+	}
+	return cs
+}
+
+func c16FirstType(m *c16Module) string {
+	for _, d := range m.Decls {
+		if d.S != nil {
+			return d.S.Name
+		}
+		if d.E != nil {
+			return d.E.Name
+		}
+	}
+	return ""
 }
